@@ -193,6 +193,64 @@ def check_metamodule(res, c):
     res.count("project_roundtrips")
     for path, a, b in snapshot.diff(S_proj, build.norm_module(snapshot.snap_module(p2.modules[1], "project"), "after"))[:3]:
         res.violation(f"C15:project:{snapshot.field_key(path)}", f"in-project {path}: before {a}, after {b}", desc)
+    # the song has been written; the embedded project is edited (project-level fields only: nothing that travels through the
+    # mappings) and the still-attached MetaModule is exported stand-alone / cloned: the export carries the project as it is NOW
+    try:
+        m.project.name = (m.project.name or "")[:20] + " v2"
+        m.project.initial_bpm = 33 + (m.project.initial_bpm % 200)
+        # (no module is added: a new module would take the lowest empty position, which a mapping may point at)
+        for em in m.project.modules[1:]:
+            if em is not None:
+                em.name, em.x, em.y = (em.name or "")[:20] + "'", 100 if em.x != 100 else 101, -100 if em.y != -100 else -101
+                break
+        S_now = build.norm_module(snapshot.snap_module(m, "synth"), "before")
+        exported = workload.load(api.Synth(m).read()).module
+        cl_att = m.clone()
+        res.count("exports_of_attached_after_embedded_edit")
+        for how, got in (("export", exported), ("clone", cl_att)):
+            for path, a, b in snapshot.diff(S_now, build.norm_module(snapshot.snap_module(got, "synth"), "after"))[:3]:
+                res.violation(f"C15:attached-{how}-stale:{snapshot.field_key(path)}", f"MetaModule attached to a song that was saved before; embedded project edited; stand-alone {how}: {path}: "
+                                                                                      f"object {a}, file {b}", desc)
+        p3 = workload.load(p.read())
+        for path, a, b in snapshot.diff(build.norm_module(snapshot.snap_module(m, "project"), "before"), build.norm_module(snapshot.snap_module(p3.modules[1], "project"), "after"))[:3]:
+            res.violation(f"C15:project-resave:{snapshot.field_key(path)}", f"in-project, second save after editing the embedded project: {path}: object {a}, file {b}", desc)
+    except Exception as e:
+        res.violation(f"C15:attached-export-raises:{workload.exc_key(e)}", f"exporting the attached MetaModule after editing its project raised {e!r}", desc)
+    foreign_labels(res, raw, desc, c.index)
+
+
+def foreign_labels(res, raw, desc, index):
+    """Controller-name chunks as other writers leave them: the name is a C string - it ends at the FIRST NUL (writers that keep
+    names in fixed buffers leave older text after it), may lack the terminator, may be padded."""
+    chunks = [(x[0], x[1]) for x in iffparse.parse(raw)]
+    cur, idx = None, []
+    for k, (cid, pl) in enumerate(chunks):
+        if cid == b"CHNM":
+            (cur,) = struct.unpack("<I", pl)
+        elif cid == b"CHDT" and cur is not None and 8 <= cur < 8 + 96:
+            idx.append((k, cur - 8))
+    if not idx:
+        return
+    k, slot = idx[index % len(idx)]
+    base = chunks[k][1].split(b"\0")[0]
+    variants = [("tail-after-nul", base + b"\0nance\0"), ("tail-after-nul-unterminated", base + b"\0xyz"), ("padded", base + bytes(32 - len(base) % 32)),
+                ("unterminated", base or b"q"), ("nul-first", b"\0hidden\0")]
+    name, payload = variants[(index // 2) % len(variants)]
+    want = payload.split(b"\0")[0].decode("utf8")
+    new = list(chunks)
+    new[k] = (b"CHDT", payload)
+    case = dict(desc, label_variant=name, slot=slot)
+    res.count("foreign_label_files")
+    res.hist("foreign_label_variants", name)
+    try:
+        mm = workload.load(iffparse.build(new)).module
+        got = mm.user_defined[slot].label
+        again = mm.clone().user_defined[slot].label
+    except Exception as e:
+        res.violation(f"C15:foreign-label-raises:{name}:{workload.exc_key(e)}", f"label chunk {payload!r}: {e!r}", case)
+        return
+    if got != want or again != want:
+        res.violation(f"C15:foreign-label:{name}", f"label chunk {payload!r} of controller {slot + 1}: loaded {got!r}, after another save/load {again!r}, the C string is {want!r}", case)
 
 
 def siblings(res, m, desc):
